@@ -79,6 +79,26 @@ def b(x):
     return "1" if x else "0"
 
 
+def nm(n):
+    """Name id -> the string given to the real code: 1000+k is "master<k>", 2000+k is "slave<k>" (the shapes the
+    handler generates itself), anything else "r<n>"; None stays None (automatic name)."""
+    if n is None:
+        return None
+    if 1000 <= n < 2000:
+        return "master%d" % (n - 1000)
+    if 2000 <= n < 3000:
+        return "slave%d" % (n - 2000)
+    return "r%d" % n
+
+
+def nid(name):
+    if name.startswith("master") and name[6:].isdigit():
+        return 1000 + int(name[6:])
+    if name.startswith("slave") and name[5:].isdigit():
+        return 2000 + int(name[5:])
+    return int(name[1:])
+
+
 def onone(x):
     return "N" if x is None else str(x)
 
@@ -163,18 +183,19 @@ class BusRun:
         try:
             with time_limit(OP_TIME_LIMIT):
                 k = op[0]
+                idx = len(self.verdicts)        # a distinct interface object for every call of the history
                 if k == "R":
                     _, n, io, o, sz, c, l, d = op
-                    bus.add_region("r%d" % n, self._region(io, o, sz, c, l, d))
+                    bus.add_region(nm(n), self._region(io, o, sz, c, l, d))
                 elif k == "S":
                     n = op[1]
                     reg = None
                     if len(op) > 2:
                         _, n, o, sz, c, l, d = op
                         reg = self._region(False, o, sz, c, l, d)
-                    bus.add_slave("r%d" % n, iface(self.dw, max(self.aw - self.sh, 1), ("s", n)), reg)
+                    bus.add_slave(nm(n), iface(self.dw, max(self.aw - self.sh, 1), ("s", idx)), reg)
                 elif k == "M":
-                    bus.add_master("r%d" % op[1], iface(self.dw, max(self.aw - self.sh, 1), ("m", op[1])))
+                    bus.add_master(nm(op[1]), iface(self.dw, max(self.aw - self.sh, 1), ("m", idx)))
                 elif k == "C":
                     bus.io_regions_check = bool(op[1])
                 else:
@@ -218,14 +239,15 @@ class BusRun:
 
     @staticmethod
     def _rs(name, r):
-        return "%s:%d:%d:%s:%s:%s" % (name[1:], r.origin, r.size, b(r.cached), b(r.linker), b(r.decode))
+        return "%d:%d:%d:%s:%s:%s" % (nid(name), r.origin, r.size, b(r.cached), b(r.linker), b(r.decode))
 
     def state_str(self):
         bus = self.bus
         return " # ".join([
             " ".join(self._rs(n, r) for n, r in bus.regions.items()),
             " ".join(self._rs(n, r) for n, r in bus.io_regions.items()),
-            " ".join(n[1:] for n in bus.masters), " ".join(n[1:] for n in bus.slaves), b(bus.io_regions_check)])
+            " ".join(str(nid(n)) for n in bus.masters), " ".join(str(nid(n)) for n in bus.slaves),
+            b(bus.io_regions_check)])
 
     def result_str(self):
         return " # ".join([" ".join(self.verdicts), self.fin or "-", self.state_str()])
@@ -239,9 +261,9 @@ def bus_line(aw, dw, ops):
             parts.append("R %d %s %s %d %s %s %s" % (n, b(io), onone(o), sz, b(c), b(l), b(d)))
         elif op[0] == "S" and len(op) > 2:
             _, n, o, sz, c, l, d = op
-            parts.append("S %d %s %d %s %s %s" % (n, onone(o), sz, b(c), b(l), b(d)))
+            parts.append("S %s %s %d %s %s %s" % (onone(n), onone(o), sz, b(c), b(l), b(d)))
         elif op[0] in ("S", "M"):
-            parts.append("%s %d" % (op[0], op[1]))
+            parts.append("%s %s" % (op[0], onone(op[1])))
         elif op[0] == "C":
             parts.append("C %s" % b(op[1]))
     return " ; ".join(parts)
@@ -272,6 +294,19 @@ def regions_oracle(bus):
     for n in bus.slaves:
         if n not in bus.regions:
             return "slave %s has no region" % n
+    return None
+
+
+def clients_oracle(bus, op, masters0, slaves0):
+    """No master/slave is lost or replaced: after an accepted call every earlier (name, interface object) pair
+    is still registered at its place, and exactly one client was added by add_master / add_slave."""
+    for what, before, now, adds in (("master", masters0, list(bus.masters.items()), op[0] == "M"),
+                                    ("slave", slaves0, list(bus.slaves.items()), op[0] == "S")):
+        if len(now) != len(before) + (1 if adds else 0):
+            return "%d %ss registered before the accepted call, %d after it" % (len(before), what, len(now))
+        for (n0, o0), (n1, o1) in zip(before, now):
+            if n0 != n1 or o0 is not o1:
+                return "%s %s registered earlier has been replaced or moved (%s)" % (what, n0, n1)
     return None
 
 
@@ -418,7 +453,19 @@ def gen_bus_history(rng, nops=None, cfg=None):
         io_base = rng.choice([top // 2, focus, top - top // 4])
     names = list(range(1, 10))
     ops = []
-    if rng.random() < 0.08:
+    if rng.random() < 0.05:
+        # master naming: automatic names around explicit ones of the same shape, e.g.
+        # add_master(); add_master("master2"); add_master()  (the third call generates the taken name master2)
+        for _ in range(rng.randint(2, 6)):
+            op = ("M", rng.choice([None, None, None, 1001, 1002, 1002, 1003, 1000, 3]))
+            ops.append(op)
+            run.apply(op)
+        if rng.random() < 0.3:
+            op = ("S", None) if rng.random() < 0.3 else ("S", None, None, max(gran, 1), 1, 0, 1)
+            ops.append(op)
+            run.apply(op)
+        nops = rng.randint(0, 4)
+    elif rng.random() < 0.08:
         # point-to-point shapes: one master, one slave; do_finalize looks at the SLAVE's region origin, not at the
         # first region of the dict (a slave-less / linker region at 0 declared first must not short-cut decoding)
         sz = rng.choice([gran, 2 * gran, 3 * gran, gran + 1]) or 1
@@ -444,7 +491,7 @@ def gen_bus_history(rng, nops=None, cfg=None):
         u = rng.random()
         name = rng.choice(names[:4]) if rng.random() < 0.12 else rng.choice(names)
         if rng.random() < 0.8:      # prefer a fresh name
-            fresh = [n for n in names if "r%d" % n not in run.bus.regions and "r%d" % n not in run.bus.io_regions]
+            fresh = [n for n in names if nm(n) not in run.bus.regions and nm(n) not in run.bus.io_regions]
             if fresh:
                 name = rng.choice(fresh)
 
@@ -491,13 +538,14 @@ def gen_bus_history(rng, nops=None, cfg=None):
             # slave: existing region, new fixed region or new allocated region
             v = rng.random()
             if v < 0.4 and run.bus.regions:
-                n = int(rng.choice(list(run.bus.regions))[1:])
+                n = nid(rng.choice(list(run.bus.regions)))
                 op = ("S", n)
             elif v < 0.5:
                 op = ("S", name)
             elif v < 0.85:
                 o, sz, c, l, d = fixed_region()
-                op = ("S", name, o, sz, c, l, d)
+                sname = name if rng.random() < 0.7 else rng.choice([None, None, 2000, 2001, 2002])
+                op = ("S", sname, o, sz, c, l, d)
             else:
                 sz = max(gran, 1) * rng.choice([1, 2, 3])
                 cached = rng.random() < 0.6
@@ -505,7 +553,8 @@ def gen_bus_history(rng, nops=None, cfg=None):
                     continue
                 op = ("S", name, None, sz, cached, 0, 1)
         elif u < 0.93:
-            op = ("M", rng.choice([1, 1, 2, 3]))
+            # explicit names of the very shape the handler generates (master<k>) mixed with automatic names
+            op = ("M", rng.choice([None, None, None, 1000, 1001, 1002, 1002, 1003, 1, 2]))
         else:
             op = ("C", rng.random() < 0.4)
         op = tuple(int(x) if isinstance(x, bool) else x for x in op)
@@ -515,11 +564,11 @@ def gen_bus_history(rng, nops=None, cfg=None):
     if rng.random() < 0.5:
         extra = []
         if not run.bus.masters:
-            extra.append(("M", 1))
+            extra.append(("M", rng.choice([1, None])))
         free = [n for n in run.bus.regions if n not in run.bus.slaves]
         rng.shuffle(free)
         for n in free[:rng.randint(1, 3)]:
-            extra.append(("S", int(n[1:])))
+            extra.append(("S", nid(n)))
         for op in extra:
             ops.append(op)
             run.apply(op)
@@ -543,19 +592,30 @@ def run_bus_history(aw, dw, ops, known=(), rng=None, with_oracles=True):
     nontrivial = 0
     for k, op in enumerate(ops):
         rq = op_request(op)
-        taken = rq is not None and ("r%d" % rq[0] in run.bus.regions or "r%d" % rq[0] in run.bus.io_regions)
-        taken_ms = (op[0] == "M" and "r%d" % op[1] in run.bus.masters) or (op[0] == "S" and "r%d" % op[1] in run.bus.slaves)
+        bus = run.bus
+        # the name this call will use (explicit, or generated by the handler from the current counts)
+        if op[0] == "M":
+            name = nm(op[1]) if op[1] is not None else "master%d" % len(bus.masters)
+        elif op[0] in ("S", "R"):
+            name = nm(op[1]) if op[1] is not None else "slave%d" % len(bus.slaves)
+        else:
+            name = None
+        taken = rq is not None and (name in bus.regions or name in bus.io_regions)
+        taken_ms = (op[0] == "M" and name in bus.masters) or (op[0] == "S" and name in bus.slaves)
+        masters0, slaves0 = list(bus.masters.items()), list(bus.slaves.items())
         v = run.apply(tuple(op))
         if v == "ok":
             nontrivial += 1
         if v.startswith("crash") and alarm is None:
             alarm = "op %d %r raised %s" % (k, list(op), v)
         if with_oracles and alarm is None and v == "ok":
-            msg = regions_oracle(run.bus)
+            msg = regions_oracle(bus)
             if msg is None and (taken or taken_ms):
-                msg = "name r%d was already granted and has been granted again" % op[1]
+                msg = "name %s was already granted and has been granted again" % name
+            if msg is None:
+                msg = clients_oracle(bus, op, masters0, slaves0)
             if msg is None and rq is not None and not rq[1] and rq[2] is None:
-                msg = alloc_oracle(run.bus, aw, "r%d" % rq[0], rq[3], rq[4], known)
+                msg = alloc_oracle(bus, aw, name, rq[3], rq[4], known)
             if msg:
                 alarm = "after op %d %r: %s" % (k, list(op), msg)
     fin = run.finalize(real_hw=False)
